@@ -36,8 +36,12 @@ class LifecycleRun:
     seconds the client handler sleeps in that delivery (first occurrence after arm time)"""
 
     def __init__(self, rng, script, susp=None, rank="stable", horizon=400.0, spa_identifier="SPA01:02:03:04:05:06",
-                 snapshot=None):
+                 snapshot=None, has_id=True):
         self.rng = rng
+        self.ident = spa_identifier
+        self.has_id = has_id
+        if not has_id:
+            spa_identifier = None          # the manager starts without a chosen spa ("Choose spa")
         self.script = sorted(script, key=lambda x: x[0])
         self.susp = dict(susp or {})
         self.log = []
@@ -91,12 +95,16 @@ class LifecycleRun:
         loop = s.loop
         resets = []
 
-        async def do_reset():
-            self.log.append({"k": "reset", "phase": "start"})
+        async def do_reset(setinfo=False):
+            self.log.append({"k": "reset", "phase": "start", "setinfo": bool(setinfo)})
             try:
-                await s.man.async_reset()
+                if setinfo:
+                    # what a configuration flow does once the user has chosen a spa
+                    await s.man.async_set_spa_info(None, self.ident, "My Spa")
+                else:
+                    await s.man.async_reset()
             finally:
-                self.log.append({"k": "reset", "phase": "return"})
+                self.log.append({"k": "reset", "phase": "return", "setinfo": bool(setinfo)})
 
         try:
             for (t, action, arg) in self.script:
@@ -115,13 +123,20 @@ class LifecycleRun:
                     if mode != getattr(self, "_mode", "ok"):
                         self.log.append({"k": "net", "mode": mode})
                     self._mode = mode
+                elif action == "rfburst":
+                    # the in.touch2 module reports `arg` RF errors in a row on the current connection
+                    from .checks.c07 import frame
+                    spa_ = s.man._spa
+                    if spa_ is not None and s.conn_transport() is not None:
+                        for i in range(int(arg)):
+                            s.inject(frame(spa_.descriptor.identifier, spa_.client_id, b"RFERR"), delay=0.001 * i)
                 elif action == "sockfail":
                     loop.fail_endpoints = int(arg)
                     loop.on_endpoint_fail = lambda kw: self.log.append({"k": "sockfail"})
-                elif action == "reset":
+                elif action in ("reset", "setinfo"):
                     if any(not r.done() for r in resets):
                         continue        # the model has one user
-                    resets.append(loop.create_task(do_reset(), name=f"GV:reset:{len(resets)}"))
+                    resets.append(loop.create_task(do_reset(action == "setinfo"), name=f"GV:reset:{len(resets)}"))
                     s.advance(0)
                 elif action == "exit":
                     break
